@@ -68,7 +68,7 @@ from __future__ import annotations
 import hashlib
 import logging
 import time
-from collections.abc import Callable
+from collections.abc import Callable, Iterable
 from contextvars import ContextVar
 from dataclasses import dataclass, field
 from datetime import datetime
@@ -667,14 +667,38 @@ def _fetch_and_resolve(
 # ---------------------------------------------------------------------------
 
 
+def _framed_ipc_size(
+    schema: pa.Schema,
+    batches: Iterable[tuple[pa.RecordBatch, pa.KeyValueMetadata | None]],
+) -> int:
+    """Return the exact length of the IPC stream ``maybe_externalize_*`` would upload.
+
+    Writes the same stream (same schema, same batches, same custom metadata,
+    same write options) into a ``pa.MockOutputStream``, which counts bytes
+    without allocating or copying them.
+    """
+    sink = pa.MockOutputStream()
+    with new_ipc_stream(sink, schema) as writer:
+        for batch, custom_metadata in batches:
+            if custom_metadata is not None:
+                writer.write_batch(batch, custom_metadata=custom_metadata)
+            else:
+                writer.write_batch(batch)
+    return int(sink.size())
+
+
 def predict_externalize_bytes_for_collector(out: OutputCollector, config: ExternalLocationConfig) -> int:
     """Predict the external upload size if :func:`maybe_externalize_collector` ran now.
 
-    Returns the data batch's logical buffer size when externalisation
-    would fire (storage configured + threshold met), else ``0``.  The
-    real upload includes IPC framing for log + data batches and may
-    differ slightly; this is a lower-bound estimate suitable for
-    pre-flight cap checks.
+    Returns ``0`` when externalisation would not fire (no storage, no data
+    batch, or the data batch's logical buffer size is below the threshold).
+    Otherwise returns the **exact** raw byte count
+    :func:`maybe_externalize_collector` reports for the upload: the framed
+    IPC stream of every batch in the collector (logs + data, with their
+    custom metadata).  The logical buffer size of the data batch alone is
+    *not* that number — framing, the schema message and the log batches
+    add hundreds of bytes — and a pre-flight that compared the smaller
+    figure let an upload through that the cap forbids.
 
     Used by HTTP dispatch paths to refuse a violating upload BEFORE
     incurring the storage round-trip — the operator's intent in setting
@@ -687,10 +711,9 @@ def predict_externalize_bytes_for_collector(out: OutputCollector, config: Extern
         data_ab = out.data_batch
     except RuntimeError:
         return 0
-    size = data_ab.batch.get_total_buffer_size()
-    if size < config.externalize_threshold_bytes:
+    if data_ab.batch.get_total_buffer_size() < config.externalize_threshold_bytes:
         return 0
-    return size
+    return _framed_ipc_size(out.output_schema, ((ab.batch, ab.custom_metadata) for ab in out.batches))
 
 
 def predict_externalize_bytes_for_batch(batch: pa.RecordBatch, config: ExternalLocationConfig) -> int:
@@ -704,10 +727,9 @@ def predict_externalize_bytes_for_batch(batch: pa.RecordBatch, config: ExternalL
         return 0
     if batch.num_rows == 0:
         return 0
-    size = batch.get_total_buffer_size()
-    if size < config.externalize_threshold_bytes:
+    if batch.get_total_buffer_size() < config.externalize_threshold_bytes:
         return 0
-    return size
+    return _framed_ipc_size(batch.schema, ((batch, None),))
 
 
 def maybe_externalize_collector(
